@@ -51,17 +51,12 @@ func ruleC17_1(c *Ctx) {
 	for _, r := range t2n {
 		arity[iv(r.Key)] = iv(r.Val)
 	}
-	// NArgs constants handled by checkArgs (non-default cases)
+	// NArgs classes for which checkArgs has an accepting path
 	handled := map[int64]bool{}
 	if ca := c.need(pkgCodec + ".checkArgs"); ca != nil {
-		for _, b := range ca.Blocks {
-			if ifi, ok := b.Instrs[len(b.Instrs)-1].(*ssa.If); ok {
-				if bo, ok := ifi.Cond.(*ssa.BinOp); ok && bo.Op == token.EQL {
-					if k, isK := constInt(bo.Y); isK && strings.Contains(bo.X.Type().String(), "NArgs") {
-						handled[k] = true
-					}
-				}
-			}
+		byClass, _, _ := c.arityClasses(ca)
+		for k := range byClass {
+			handled[k] = true
 		}
 	}
 	seenName := map[string]bool{}
@@ -159,7 +154,7 @@ func ruleC17_2(c *Ctx) {
 		return
 	}
 	for _, a := range acts {
-		gs := guardsAt(a.Block())
+		gs := guardsOf(a)
 		var missing []string
 		if !guardHas(gs, func(g Guard) bool { return typeCmp(g, token.GTR, unknown) }) {
 			missing = append(missing, "Type > UNKNOWN")
@@ -270,9 +265,9 @@ func ruleC17_3(c *Ctx) {
 	typeF := p.Field(pkgCore, "Msg", "Type")
 	okSet := false
 	for _, w := range p.fieldWrites(typeF) {
-		if outermost(w.Fn) == dec {
+		if homeFn(w.Fn) == dec {
 			if k, isK := constInt(w.Val); isK && k == tooLarge {
-				if guardHas(guardsAt(w.Instr.Block()), func(g Guard) bool { return g.Cond == call.Value() && g.Truth }) {
+				if guardHas(guardsOf(w.Instr), func(g Guard) bool { return g.Cond == call.Value() && g.Truth }) {
 					okSet = true
 				}
 			}
@@ -311,7 +306,7 @@ func ruleC17_4(c *Ctx) {
 		// sets f.Error on the true edge, and precedes the merge dispatch
 		setsErr := false
 		for _, w := range p.fieldWrites(errF) {
-			if outermost(w.Fn) == sread && guardHas(guardsAt(w.Instr.Block()), func(g Guard) bool { return g.Cond == call.Value() && g.Truth }) {
+			if homeFn(w.Fn) == sread && guardHas(guardsOf(w.Instr), func(g Guard) bool { return g.Cond == call.Value() && g.Truth }) {
 				if s, ok := constString(w.Val); ok && strings.Contains(s, "rsp msg length too large") {
 					setsErr = true
 				}
@@ -415,7 +410,7 @@ func ruleC17_5(c *Ctx) {
 		if st, ok := in.(*ssa.Store); ok {
 			if bo, ok := st.Val.(*ssa.BinOp); ok && (bo.Op == token.XOR || bo.Op == token.OR || bo.Op == token.ADD) {
 				if k, isK := constInt(bo.Y); isK && k == 0x20 {
-					gs := guardsAt(st.Block())
+					gs := guardsOf(st)
 					ge := guardHas(gs, func(g Guard) bool {
 						_, op, y, ok := cmpGuard(g)
 						k, isK := constInt(y)
@@ -455,7 +450,7 @@ func ruleC18_1(c *Ctx) {
 		}
 		n++
 		act, isK := constInt(results(r)[1])
-		gs := guardsAt(r.Block())
+		gs := guardsOf(r)
 		admitted := guardHas(gs, func(g Guard) bool { _, is := p.isCallTo(g.Cond, validate); return is && g.Truth })
 		rejected := guardHas(gs, func(g Guard) bool { _, is := p.isCallTo(g.Cond, validate); return is && !g.Truth })
 		switch {
@@ -484,7 +479,7 @@ func ruleC18_1(c *Ctx) {
 		if !isConst {
 			return
 		}
-		gs := guardsAt(r.Block())
+		gs := guardsOf(r)
 		if k.Value.String() == "false" {
 			okF := guardHas(gs, func(g Guard) bool { _, is := fieldLoad(g.Cond, enable); return is && g.Truth }) &&
 				guardHas(gs, func(g Guard) bool {
@@ -529,7 +524,7 @@ func ruleC18_1(c *Ctx) {
 			closeConn := p.Method(pkgCore, "eventloop", "closeConn")
 			okC := false
 			for _, call := range p.callsIn(ha, closeConn) {
-				if guardHas(guardsAt(call.Block()), func(g Guard) bool {
+				if guardHas(guardsOf(call), func(g Guard) bool {
 					_, op, y, ok := cmpGuard(g)
 					k, isK := constInt(y)
 					return ok && op == token.EQL && isK && k == closeK
@@ -592,7 +587,7 @@ func ruleC18_2(c *Ctx) {
 		"reloading the whitelist only ever inserts: an address removed from the file stays admitted until the proxy is restarted")
 	if removes && at != nil {
 		// the removal is reached only when the file was read and parsed
-		okG := guardHas(guardsAt(at.Block()), func(g Guard) bool {
+		okG := guardHas(guardsOf(at), func(g Guard) bool {
 			_, op, y, ok := cmpGuard(g)
 			return ok && op == token.EQL && isNilConst(y)
 		})
@@ -630,6 +625,35 @@ func ruleC18_3(c *Ctx) {
 				ifi, ok := b.Instrs[len(b.Instrs)-1].(*ssa.If)
 				if !ok {
 					continue
+				}
+				// a predicate helper (isReloadOp(ev.Op)): every single-bit test that makes it return true counts
+				{
+					cond, neg := ifi.Cond, false
+					for {
+						u, ok := cond.(*ssa.UnOp)
+						if !ok {
+							break
+						}
+						cond, neg = u.X, !neg
+					}
+					if call, ok := cond.(*ssa.Call); ok {
+						if h := call.Call.StaticCallee(); h != nil && p.isHelper(h) {
+							tb := b.Succs[0]
+							if neg {
+								tb = b.Succs[1]
+							}
+							var hdr *ssa.BasicBlock
+							if l := innermostLoop(loopsOf(fn), b); l != nil {
+								hdr = l.Header
+							}
+							if tb == call.Block() || tb == callBlock(calls) || reachableBlocks(tb, func(x *ssa.BasicBlock) bool { return x == hdr })[callBlock(calls)] {
+								for _, bit := range trueBits(h) {
+									found[bit] = true
+								}
+							}
+							continue
+						}
+					}
 				}
 				bo, ok := ifi.Cond.(*ssa.BinOp)
 				if !ok || (bo.Op != token.EQL && bo.Op != token.NEQ) {
@@ -704,4 +728,68 @@ func (p *Prog) foreignConstInt(pkgPath, name string) (int64, bool) {
 		}
 	}
 	return 0, false
+}
+
+func callBlock(calls []ssa.CallInstruction) *ssa.BasicBlock {
+	if len(calls) == 0 {
+		return nil
+	}
+	return calls[0].Block()
+}
+
+// trueBits: the single bits b such that `op & b != 0` alone makes predicate helper h return true: mask tests
+// (x&K == K, x&M != 0) that are a returned value, an edge of a returned `||` phi, or a branch to `return true`.
+func trueBits(h *ssa.Function) []int64 {
+	var out []int64
+	maskBits := func(v ssa.Value) []int64 {
+		bo, ok := v.(*ssa.BinOp)
+		if !ok {
+			return nil
+		}
+		and, ok := bo.X.(*ssa.BinOp)
+		if !ok || and.Op != token.AND {
+			return nil
+		}
+		mask, isK := constInt(and.Y)
+		k2, isK2 := constInt(bo.Y)
+		if !isK || !isK2 {
+			return nil
+		}
+		var bits []int64
+		switch {
+		case bo.Op == token.EQL && k2 == mask && mask&(mask-1) == 0:
+			bits = []int64{mask}
+		case bo.Op == token.NEQ && k2 == 0:
+			for bit := int64(1); bit <= mask; bit <<= 1 {
+				if mask&bit != 0 {
+					bits = append(bits, bit)
+				}
+			}
+		}
+		return bits
+	}
+	for _, r := range returnsReachable(h) {
+		ret := r.(*ssa.Return)
+		v := results(ret)[0]
+		out = append(out, maskBits(v)...)
+		if ph, ok := v.(*ssa.Phi); ok {
+			for i, e := range ph.Edges {
+				out = append(out, maskBits(e)...)
+				// a constant-true edge: the branch that led here
+				if k, isK := e.(*ssa.Const); isK && k.Value != nil && k.Value.String() == "true" {
+					if g, ok := edgeFact(ph.Block().Preds[i], ph.Block()); ok && g.Truth {
+						out = append(out, maskBits(g.Cond)...)
+					}
+				}
+			}
+		}
+		if k, isK := v.(*ssa.Const); isK && k.Value != nil && k.Value.String() == "true" {
+			for _, g := range decidingConds(ret.Block(), 0) {
+				if g.Truth {
+					out = append(out, maskBits(g.Cond)...)
+				}
+			}
+		}
+	}
+	return out
 }
